@@ -293,6 +293,62 @@ def wire (e : EnumDef) (v : Variant) : Option Wire :=
 
 end Serde
 
+/-! ## values: what a derived `Serialize` writes for a struct, and validation of an object schema -/
+
+/-- JSON values, as far as validation of an object schema looks at them -/
+inductive J
+  | null
+  | leaf (tag : Nat)                       -- any non-null value of a field type (opaque)
+  | obj (kvs : List (Str × J))
+
+/-- what a field holds when the struct is serialized -/
+inductive FieldVal
+  | omitted                                -- skip_serializing_if said so
+  | null                                   -- an Option that is None, written as null
+  | val (j : J)                            -- anything else, already serialized
+
+namespace Serde
+
+/-- the key/value pairs a derived `Serialize` writes for a struct with named fields (no flatten) -/
+def ser (ra : Option Rule) : List (Field × FieldVal) → Option (List (Str × J))
+  | [] => some []
+  | (f, v) :: rest =>
+    if !(written f) then ser ra rest
+    else match name applyField ra f.ident f.rename, ser ra rest with
+      | some n, some kvs =>
+        match v with
+        | .omitted => some kvs
+        | .null => some ((n, J.null) :: kvs)
+        | .val j => some ((n, j) :: kvs)
+      | _, _ => none
+
+/-- the value is one serde can produce for that field, and `leafOK` says the non-null ones fit the field type's schema -/
+def admissible (leafOK : Field → J → Bool) (f : Field) : FieldVal → Bool
+  | .omitted => f.skipIf
+  | .null => false                         -- excluded: the recorded finding KF-C16-option-null
+  | .val j => leafOK f j
+
+end Serde
+
+def lookup (k : Str) : List (Str × J) → Option J
+  | [] => none
+  | (k', v) :: rest => if k' = k then some v else lookup k rest
+
+/-- validation of an object schema whose property schemas are judged by `propOK` -/
+def validatesObj (propOK : Str → J → Bool) (props : List (Str × Bool)) (kvs : List (Str × J)) : Bool :=
+  props.all fun p => match lookup p.1 kvs with
+    | some j => propOK p.1 j
+    | none => !p.2
+
+def expect : FieldVal → Option J
+  | .omitted => none
+  | .null => some J.null
+  | .val j => some j
+
+/-- the property schema under name `n` accepts `j`: some written field serialized under `n` has a type whose schema accepts `j` -/
+def propOK (leafOK : Field → J → Bool) (ra : Option Rule) (fvs : List (Field × FieldVal)) (n : Str) (j : J) : Bool :=
+  fvs.any fun p => Serde.written p.1 && decide (Serde.name Serde.applyField ra p.1.ident p.1.rename = some n) && leafOK p.1 j
+
 /-! ## reading a schema shape -/
 
 /-- (name, required) of the direct properties of an object schema -/
